@@ -234,7 +234,7 @@ def gen_scenario(rng, v6=False):
                   dict(dt=rng.choice([10, 300, 1200]), kind='response', data=ann.packets()[0], src='fe80::7', port=5353)] + \
                  [dict(d, dt=d['dt'] + 1500, src='fe80::' + d['src'][-1]) for d in stream]
     return dict(svcs=svcs, peers=peers, stream=stream, browser=rng.random() < 0.7, lookup=True if v6 else rng.random() < 0.5, v6=v6,
-                long=rng.random() < 0.2,
+                long=rng.random() < 0.2, replay_probe=rng.choice([0, 0, 0, 500, 700, 999]),
                 mcast=[rng.choice([20, 70, 120]) for _ in range(60)], tcd=[rng.choice([400, 450, 500]) for _ in range(20)],
                 fq=[rng.choice([20, 57, 120]) for _ in range(6)])
 
@@ -313,6 +313,14 @@ def run_scenario(sc):
             # (in one scenario out of five an hour passes first: whatever the stream left scheduled - refresh queries at 75..95 % of the pointers'
             # lifetimes, expiries, the periodic cache cleanup - runs before the liveness probe)
             await sim.sleep(3600 * 1000 if sc.get('long') else 4000)
+            if sc.get('replay_probe'):
+                # the liveness query itself, replayed faster than once a second just before: copies are ignored for one second after the copy
+                # that was HANDLED, so every other one is answered - and so is the liveness query, the fifth of the series
+                pq = DNSOutgoing(const._FLAGS_QR_QUERY, id_=4242)
+                pq.add_question(DNSQuestion(probe_svc['name'], const._TYPE_SRV, const._CLASS_IN))
+                for _ in range(4):
+                    sim.net.inject(a, pq.packets()[0], ('fe80::77', 5353, 0, 3) if sc.get('v6') else ('10.0.0.77', 5353))
+                    await sim.sleep(sc['replay_probe'])
             # --- is it still alive? a fresh query must be answered, a fresh announcement must reach the browser ---
             res['t_alive'] = sim.now
             mark = len(sim.net.log)
@@ -331,7 +339,9 @@ def run_scenario(sc):
                 ann.add_answer_at_time(mk(r), 0)
             sim.net.inject(a, ann.packets()[0], ('fe80::78', 5353, 0, 3) if sc.get('v6') else ('10.0.0.78', 5353))
             await sim.sleep(1500)
-            res['answered'] = any(any(r.type == 33 and r.name == probe_svc['name'] and r.ttl > 0 for r in c09.parse(data).answers())
+            # (the SRV record in the ANSWER section: as an additional of the pointer answer it would not show that the SRV question was answered)
+            res['answered'] = any(any(r.type == 33 and r.name == probe_svc['name'] and r.ttl > 0
+                                      for r in c09.parse(data).answers()[:c09.parse(data).num_answers])
                                   for (ms, host, dest, data, idx) in sim.net.log[mark:] if host == 'A' and not c09.parse(data).is_query())
             res['ptr_answered'] = any(any(r.type == 12 and r.alias == probe_svc['name'] and r.ttl > 0 for r in c09.parse(data).answers())
                                       for (ms, host, dest, data, idx) in sim.net.log[mark:] if host == 'A' and not c09.parse(data).is_query())
@@ -412,7 +422,7 @@ def run(ctx):
                        "mutated copies (truncation, bit flips, byte overwrite, count fields, insertions, duplicated tail, injected pointers), random bytes "
                        "(0-100), hostile compression (self/two-node loops, forward chains of 3..3000 hops, pointer into a label / past the end, 128 labels), "
                        "legacy-unicast queries with invalid UTF-8 labels of 1..63 bytes, datagrams of 8966/8967/9000/20000 bytes, exact repeats; gaps "
-                       "0..3000 ms incl. 999/1000/1001; mDNS and legacy source ports; afterwards a liveness probe (query + announcement)")
+                       "0..3000 ms incl. 999/1000/1001; mDNS and legacy source ports; afterwards a liveness probe (query + announcement), in half of the scenarios preceded by four copies of the liveness query at 500 / 700 / 999 ms")
     for sc, why in fails[:3]:
         ctx.violation({'kind': 'oracle', 'why': why, 'scenario': c09.jsonable(sc)})
     if not ok:
